@@ -29,6 +29,12 @@ class Convertible(object):
         return MassAction([self.k])
 
 
+def mk_poly(p, num):
+    from chempy.util._expr import create_Poly
+    cls = create_Poly(p['pk'])
+    return cls([_num(a, num) for a in p['a']], unique_keys=(p['uk'],) if p.get('uk') else None)
+
+
 def mk_pexpr(e, num):
     """{'c': rat} | {'s': key} | {'add': [a, b]} | {'mul': [a, b]} -> chempy.util._expr objects"""
     from chempy.util._expr import Constant, Symbol, _AddExpr, _MulExpr
@@ -79,6 +85,10 @@ def mk_param(p, num):
         return p['uk']
     if kind == 'sym':
         return MassAction([Symbol(unique_keys=(p['uk'],))])
+    if kind == 'poly':                                   # a rate constant that depends on a PARAMETER key: a0 + a1*T (+ a2*T**2)
+        return MassAction([mk_poly(p, num)])
+    if kind == 'strarg':                                 # MassAction(['T']): the argument is the NAME of a variable
+        return MassAction([p['key']])
     raise ValueError(kind)
 
 
@@ -179,8 +189,9 @@ def run_builder(c, rsys=None, builder=None, include_params=None, subs=None):
         kw['parameter_symbols'] = mk((k, sympy.Symbol(k)) for k in c['param_symbols']['keys'])
     if c['cstr']:
         kw['rates_kw'] = {'cstr_fr_fc': cstr_pair(c)}
-    if c['param_exprs']:
-        kw['parameter_expressions'] = OrderedDict((k, Constant([_num(v, c['num'])])) for k, v in c['param_exprs'])
+    if c['param_exprs'] or c.get('pe_poly'):
+        kw['parameter_expressions'] = OrderedDict([(k, Constant([_num(v, c['num'])])) for k, v in c['param_exprs']] +
+                                                  [(k, mk_poly(pp, c['num'])) for k, pp in (c.get('pe_poly') or [])])
     return _create_odesys(rsys, **kw)
 
 
@@ -565,7 +576,10 @@ class C04(Property):
             'object (build, then set rxn.param / replace / append (list, +=) / delete / permute reactions / sort_substances_inplace, '
             'build again with either entry point and any configuration, expected value from the CURRENT public state); configurations: get_odesys with '
             'include_params True/False x passive substitutions (subset of keys, CSTR keys, unknown key) x cstr, _create_odesys with '
-            'cstr and parameter_expressions={key: Constant}; name-clash and reserved-name streams; a rational evaluation point per '
+            'cstr and parameter_expressions={key: Constant}; Expr-valued substitutions (Constant / Symbol / + / * over fresh symbols, earlier '
+            'keys, CSTR keys, concentrations, undefined symbols), constants= objects, parameter objects with as_RateExpr(), user-supplied '
+            'substance_symbols / parameter_symbols (right, permuted, short, plain dict, missing key), 8 % oracle-only cases with parameter-keyed '
+            'rate expressions (create_Poly, string arguments); name-clash and reserved-name streams; a rational evaluation point per '
             'case. A case is non-trivial when it is a distinct JSON value with at least one reaction.')
     assumptions = ('sympy and pyodesys are third party: sympy.Poly(...).terms() is used as canoniser, SymbolicSys.from_callback is '
                    'modelled (names/param_names clash, number of expressions, dict -> list by name), neither is verified',
@@ -581,13 +595,21 @@ class C04(Property):
                    'f_cb / rate_exprs_cb are lambdified float code: compared at rational points with relative tolerance 1e-9 '
                    '(absolute 1e-12 x sum of |terms| where the exact value cancels)')
     clauses_without_theorem = (
-        'active (Expr-valued) substitutions of get_odesys (_active_subst, _subst_pk, _reg_unique(sv)): not modelled, no theorem, not generated',
+        'active (Expr-valued) substitutions of get_odesys: modelled for Constant / Symbol / + / * (polynomial) expressions with theorems '
+        '(rhsG_is_NT_r, active_substitution_means_expression); expressions with parameter_keys of their own (_subst_pk non-empty) and '
+        'non-polynomial classes are not modelled (C16)',
+        'rate expressions with PARAMETER keys (MassAction([Poly_T([a0, a1])]) from create_Poly, MassAction([\'T\']) string arguments, string '
+        'parameters whose parameter_expressions entry is such a polynomial; get_odesys all_pk / constants= for such keys, _create_odesys key '
+        'collection lines 617-627): oracle only (8 % of the cases, kind \'pk\'), no Lean model',
         'user-supplied CSTR tuples cstr=(fr_key, fc_dict) / arbitrary rates_kw: only the shape ("feedratio", {s: "fc_"+s}) over all '
         'substances (cstr=True, and the same tuple for _create_odesys) is modelled',
-        'unit registries (unit_registry=, output_*_unit, dedimensionalisation) and constants=: not modelled (C10 treats units)',
+        'unit registries (unit_registry=, output_*_unit, dedimensionalisation, _reg_unique_unit): not modelled (C10 treats units); constants= is '
+        'modelled for plain numbers (theorem constants_are_passive_substitutions), not for quantities',
+        'the closures max_euler_step_cb / linear_dependencies defined at the end of get_odesys: C06 / C05',
         'non-polynomial rate expressions (Arrhenius, Eyring, Radiolytic, ...): C16; here every parameter is mass-action with a '
         'rational / named / symbolic constant',
-        'user-supplied substance_symbols / parameter_symbols / time_symbol of _create_odesys: defaults only',
+        'user-supplied substance_symbols / parameter_symbols of _create_odesys: modelled for Symbol(key) values (theorem user_symbols); other '
+        'symbol names and a user time_symbol are not modelled',
         'odesys.f_cb and extra[\'rate_exprs_cb\'] (lambdified float code): correspondence and oracle at rational points only',
         'the order of the CSTR keys inside param_names (a Python set): compared as a set, no theorem',
         'linear_invariants handed to SymbolicSys (C05) and variables[\'time\']: not part of the model',
@@ -621,6 +643,8 @@ class C04(Property):
                 out.append(self._history(rng, tier))
             elif r < 0.25:
                 out.append(self._fractional(rng, tier))
+            elif r < 0.33:
+                out.append(self._pk(rng, tier))
             else:
                 out.append(self._gen_one(rng, tier))
         return out
@@ -644,6 +668,55 @@ class C04(Property):
             rxns[j]['from_copy'] = i
             if rng.random() < 0.7:
                 rxns[j]['param'] = dict(rxns[i]['param'])
+
+    def _pk(self, rng, tier):
+        """rate expressions with PARAMETER keys (oracle only): MassAction([Poly_T([a0, a1, ...], unique_keys=(uk,)?)]) with
+        create_Poly('T'), MassAction(['T']) (a string argument = the name of a variable), string parameters whose
+        parameter_expressions entry is such a polynomial; substitutions / `constants=` for the parameter key"""
+        for _ in range(50):
+            c = self._gen_one(rng, tier)
+            if c['rxns'] and clean(c):
+                break
+        for k in ('active', 'consts', 'subst_symbols', 'param_symbols'):
+            c.pop(k, None)
+        c['op'] = None
+        c['kind'] = 'pk'
+        num = c['num']
+        pks = rng.choice([['T'], ['T'], ['T', 'Tb']])
+        uks_used = [s['param']['uk'] for s in c['rxns'] if 'uk' in s['param']]
+        n_poly = 0
+        pe_poly = []
+        for i, s in enumerate(c['rxns']):
+            r = rng.random()
+            if r < 0.45 or (i == 0 and not n_poly):
+                pp = {'kind': 'poly', 'pk': rng.choice(pks), 'a': [kg.rand_rat(rng, num) for _ in range(rng.randint(2, 3))]}
+                if rng.random() < 0.5:
+                    pp['uk'] = 'a0_%d' % i
+                if c['builder'] == 'create' and rng.random() < 0.4:                  # string parameter + parameter_expressions
+                    key = 'kx%d' % i
+                    s['param'] = {'kind': 'key', 'uk': key}
+                    pe_poly.append([key, {'pk': pp['pk'], 'a': pp['a']}])
+                else:
+                    s['param'] = pp
+                n_poly += 1
+            elif r < 0.6 and n_poly:
+                s['param'] = {'kind': 'strarg', 'key': rng.choice(pks)}
+            for k in ('share', 'from_copy'):
+                s.pop(k, None)
+        c['pe_poly'] = pe_poly
+        c['param_exprs'] = [kv for kv in c['param_exprs'] if kv[0] not in [k for k, _ in pe_poly]]
+        if c['builder'] == 'get':
+            cand = pks + ['a0_%d' % i for i in range(len(c['rxns']))]
+            for k in cand:
+                if rng.random() < 0.15 and k not in [x[0] for x in c['subs']]:
+                    present = k in pks or any(s['param'].get('uk') == k for s in c['rxns'])
+                    if present:
+                        c['subs'].append([k, kg.rand_rat(rng, num)])
+            if rng.random() < 0.3:
+                c['consts'] = [[k, kg.rand_rat(rng, num)] for k in pks if k not in [x[0] for x in c['subs']] and rng.random() < 0.7]
+        c['point'] = c['point'] + [[k, rat_json(Fraction(rng.randint(-3, 9), rng.choice([1, 2])))]
+                                   for k in pks + ['a0_%d' % i for i in range(len(c['rxns']))] + ['kx%d' % i for i in range(len(c['rxns']))]]
+        return c
 
     def _fractional(self, rng, tier):
         """non-integral stoichiometric coefficients, oracle only (the Lean model's coefficients are natural numbers):
@@ -1035,10 +1108,16 @@ class C04(Property):
         if c.get('kind') == 'fractional' and c.get('op') is None:
             c = dict(c, op='build', rxns=[dict(s, **{p_: [[k, (lambda q: int(q) if q.denominator == 1 else q)(kg.frac(v) if isinstance(v, list) else Fraction(v))]
                                                             for k, v in s[p_]] for p_ in PARTS}) for s in c['rxns']])
+        if c.get('kind') == 'pk' and c.get('op') is None:
+            return self._oracle_pk(dict(c, op='build'), mk_rsys(c))
         if c.get('op') != 'build':
             return None
-        want_coeffs = expected_free(c)
         rsys = rsys if rsys is not None else mk_rsys(c)
+        if c['builder'] == 'get' and (c.get('active') or c.get('consts')):
+            return self._oracle_general(c, rsys)
+        if c['builder'] == 'create' and (c.get('subst_symbols') is not None or c.get('param_symbols') is not None):
+            return self._oracle_usersyms(c, rsys)
+        want_coeffs = expected_free(c)
         try:
             odesys, extra = run_builder(c, rsys)
         except Exception as e:
@@ -1178,6 +1257,347 @@ class C04(Property):
                         return 'builders disagree on d[%s]/dt: %s vs %s' % (sk, g1, g3)
         return None
 
+    # ---- shared by the two oracles below --------------------------------------------------------------
+    def _check_built(self, c, odesys, extra, look, coeffs, what):
+        """names, expressions (symbolically) and the numeric callbacks against N^T r; `look(name)` = sympy value of a name in
+        `variables`, `coeffs` = sympy value of each reaction's rate constant"""
+        import sympy
+        if list(odesys.names) != list(c['subst']):
+            return '%s: names %s differ from the substance order %s' % (what, list(odesys.names), c['subst'])
+        if len(odesys.exprs) != len(c['subst']):
+            return '%s: %d expressions for %d substances' % (what, len(odesys.exprs), len(c['subst']))
+        rates = []
+        for srx, k in zip(c['rxns'], coeffs):
+            r = k
+            for j, nu in srx['reac']:
+                r = r * look(j) ** nu
+            rates.append(r)
+        want = []
+        for sk in c['subst']:
+            tot = sympy.Integer(0)
+            for srx, r in zip(c['rxns'], rates):
+                tot = tot + kg.net_of(srx, sk) * r
+            if c['cstr']:
+                tot = tot + look('feedratio') * (look('fc_' + sk) - look(sk))
+            want.append(tot)
+        for sk, got, w in zip(c['subst'], odesys.exprs, want):
+            if not poly_equal(got, w):
+                return '%s: d[%s]/dt = %s but N^T r = %s' % (what, sk, got, sympy.expand(w))
+        # numeric callbacks at the rational point
+        pt = point_of(c)
+        symof = dict(zip(odesys.param_names, odesys.params))
+        symof.update(zip(odesys.names, odesys.dep))
+        at = {sy: sympy.Rational(pt.get(n, Fraction(0)).numerator, pt.get(n, Fraction(0)).denominator) for n, sy in symof.items()}
+
+        def num(e):
+            e = sympy.expand(sympy.sympify(e))
+            val = e.subs(at)
+            scale = sum(abs(t.subs(at)) for t in sympy.Add.make_args(e))
+            return val, scale
+        fgot = eval_cb(odesys.f_cb, odesys, pt)
+        for sk, g, w in zip(c['subst'], fgot, want):
+            v, sc = num(w)
+            if not fclose(g, float(v), float(sc)):
+                return '%s: f_cb gives d[%s]/dt = %s at %s, N^T r = %s' % (what, sk, g, c['point'], v)
+        if extra is not None and 'rate_exprs_cb' in extra:
+            rgot = eval_cb(extra['rate_exprs_cb'], odesys, pt)
+            if len(rgot) != len(rates):
+                return '%s: %d rates for %d reactions' % (what, len(rgot), len(rates))
+            for i, (g, w) in enumerate(zip(rgot, rates)):
+                v, sc = num(w)
+                if not fclose(g, float(v), float(sc)):
+                    return '%s: rate_exprs_cb[%d] = %s at %s, k*prod(c^nu) = %s' % (what, i, g, c['point'], v)
+        return None
+
+    def _oracle_general(self, c, rsys):
+        """get_odesys with Expr-valued (active) substitutions and/or `constants=`: own expectation from the case.
+        Order of events in the real builder that the expectation follows: keys registered by the active substitutions (left to
+        right), then by the reactions; `variables` = y, p, then each active expression evaluated on what is defined so far,
+        then the passive values (numeric substitutions, constants)."""
+        import sympy
+        names = list(c['subst'])
+        passive = OrderedDict((k, kg.frac(v)) for k, v in c['subs'])
+        act = [(k, e) for k, e in (c.get('active') or [])]
+        consts = dict((k, kg.frac(v)) for k, v in (c.get('consts') or []))
+        sub_keys = set(passive) | set(k for k, _ in act)
+        cs = (['feedratio'] + ['fc_' + x for x in names]) if c['cstr'] else []
+        uks = [srx['param']['uk'] for srx in c['rxns'] if 'uk' in srx['param']]
+        try:
+            odesys, extra = run_builder(c, rsys)
+            err = None
+        except Exception as e:
+            odesys, extra, err = None, None, e
+        if not c['rxns'] or 'time' in set(names) | sub_keys | set(uks) or not participates(c) <= set(names):
+            return None
+        if any(k not in cs and k not in uks for k in sub_keys):
+            return None if err is not None else 'get_odesys accepted a substitution key that occurs in no rate expression'
+        used_consts = {k: consts[k] for k in cs if k not in sub_keys and k in consts}
+        want_pk = [k for k in cs if k not in sub_keys and k not in consts]
+        reg = []
+        if not c['include_params']:
+            for _, e in act:
+                for sy in pexpr_syms(e):
+                    if sy not in sub_keys and sy not in reg:
+                        reg.append(sy)
+            for srx in c['rxns']:
+                p = srx['param']
+                if 'uk' in p and p['uk'] not in sub_keys and p['uk'] not in reg:
+                    reg.append(p['uk'])
+        want_params = want_pk + [k for k in reg if k not in want_pk]
+        capture = set(names) & (set(uks) | sub_keys | set(cs))           # the known finding: one dict for all name spaces
+        clash = set(names) & set(want_params)
+        defined0 = set(names) | set(want_params)
+        P = {}                                                          # placeholder symbols by name
+
+        def ph(n):
+            return P.setdefault(n, sympy.Symbol('ph_' + n))
+        vals, undefined = {}, False
+        for k, e in act:
+            def look_now(sy):
+                if sy in vals:
+                    return vals[sy]
+                if sy in defined0:
+                    return ph(sy)
+                raise KeyError(sy)
+            try:
+                vals[k] = pexpr_value(e, look_now)
+            except KeyError:
+                undefined = True
+                break
+        fixed = dict(passive)
+        fixed.update(used_consts)
+
+        def look(n):
+            if n in fixed:
+                return sympy.Rational(fixed[n].numerator, fixed[n].denominator)
+            if n in vals:
+                return vals[n]
+            if n in defined0:
+                return ph(n)
+            raise KeyError(n)
+        coeffs = []
+        if not undefined:
+            for srx in c['rxns']:
+                p = srx['param']
+                try:
+                    if p['kind'] in ('raw', 'ma'):
+                        q = kg.frac(p['k'])
+                        coeffs.append(sympy.Rational(q.numerator, q.denominator))
+                    elif p['kind'] == 'named':
+                        try:
+                            coeffs.append(look(p['uk']))
+                        except KeyError:
+                            q = kg.frac(p['k'])
+                            coeffs.append(sympy.Rational(q.numerator, q.denominator))
+                    else:
+                        coeffs.append(look(p['uk']))
+                except KeyError:
+                    undefined = True
+        must_accept = (not undefined and not clash and not capture and (c['cstr'] or participates(c) == set(names)) and
+                       (c['num'] == 'Rational' or c['cstr']) and not ({'t', 'x'} & (set(names) | set(want_params))))
+        if err is not None:
+            if must_accept:
+                return 'get_odesys refused a well-formed system with active substitutions / constants: %s: %s' % (exc_name(err), str(err)[:100])
+            return None
+        if undefined or clash or capture:
+            return None                                   # accepted although a name is captured / undefined: the known finding's territory
+        # ---- names of the parameters
+        if set(extra['param_keys']) != set(want_pk):
+            return 'param_keys %s, expected %s (substituted: %s, from constants: %s)' % (extra['param_keys'], want_pk, sorted(sub_keys), sorted(used_consts))
+        if list(extra['unique']) != reg:
+            return "extra['unique'] keys %s, registration order %s" % (list(extra['unique']), reg)
+        if set(odesys.param_names) != set(want_params) or list(odesys.param_names)[len(want_pk):] != want_params[len(want_pk):]:
+            return 'param_names %s, expected %s' % (list(odesys.param_names), want_params)
+        stored = {}
+        for srx in c['rxns']:
+            if srx['param']['kind'] == 'named':
+                stored.setdefault(srx['param']['uk'], set()).add(kg.frac(srx['param']['k']))
+        for k, v in extra['unique'].items():
+            if k in stored and len(stored[k]) == 1 and not shared_inconsistent(c):
+                if v is None or kg.to_frac(v) != next(iter(stored[k])):
+                    return "extra['unique'][%r] = %s, stored constant %s" % (k, v, next(iter(stored[k])))
+        symof = dict(zip(odesys.param_names, odesys.params))
+        symof.update(zip(odesys.names, odesys.dep))
+        def real(e):
+            e = sympy.sympify(e)
+            return e.subs({P[m]: symof[m] for m in list(P)})
+        return self._check_built(c, odesys, extra, lambda n: real(look(n)), [real(k) for k in coeffs],
+                                 'get_odesys (active substitutions / constants)')
+
+    def _oracle_pk(self, c, rsys):
+        """rate expressions with parameter keys (see `_pk`): which names become parameters, and N^T r with
+        k_r = a0 + a1*T + a2*T**2 (a0 possibly a named constant), T a parameter / substituted / taken from `constants`"""
+        import sympy
+        names = list(c['subst'])
+        rat = lambda q: sympy.Rational(kg.frac(q).numerator, kg.frac(q).denominator)
+        cs = (['feedratio'] + ['fc_' + x for x in names]) if c['cstr'] else []
+        pe_poly = dict((k, pp) for k, pp in (c.get('pe_poly') or []))
+        pe = dict((k, kg.frac(v)) for k, v in c['param_exprs'])
+        try:
+            odesys, extra = run_builder(c, rsys)
+            err = None
+        except Exception as e:
+            odesys, extra, err = None, None, e
+        uks = [s['param']['uk'] for s in c['rxns'] if s['param'].get('uk')]
+        pks = list(dict.fromkeys([s['param']['pk'] for s in c['rxns'] if s['param']['kind'] == 'poly'] +
+                                 [pe_poly[s['param']['uk']]['pk'] for s in c['rxns'] if s['param']['kind'] == 'key' and s['param']['uk'] in pe_poly]))
+        if set(names) & (set(uks) | set(pks) | set(cs) | set(pe)) or {'time', 't', 'x'} & (set(names) | set(uks) | set(pks)):
+            return None
+        if not participates(c) <= set(names):
+            return None
+        complete = c['cstr'] or participates(c) == set(names)
+        sympy_nums = c['num'] == 'Rational' or c['cstr']
+        if c['builder'] == 'get':
+            passive = OrderedDict((k, kg.frac(v)) for k, v in c['subs'])
+            consts = dict((k, kg.frac(v)) for k, v in (c.get('consts') or []))
+            ori_pk = pks + cs
+            if any(k not in ori_pk and k not in uks for k in passive):
+                return None if err is not None else 'get_odesys accepted a substitution key that occurs in no rate expression'
+            used_consts = {k: consts[k] for k in ori_pk if k not in passive and k in consts}
+            want_pk = [k for k in ori_pk if k not in passive and k not in consts]
+            reg, regval = [], {}
+            if not c['include_params']:
+                for s in c['rxns']:
+                    p = s['param']
+                    if p.get('uk') and p['uk'] not in passive:
+                        if p['uk'] not in reg:
+                            reg.append(p['uk'])
+                        regval[p['uk']] = kg.frac(p['k']) if p['kind'] == 'named' else kg.frac(p['a'][0]) if p['kind'] == 'poly' else None
+            want_params = want_pk + [k for k in reg if k not in want_pk]
+            fixed = dict(passive)
+            fixed.update(used_consts)
+        else:
+            want_params, fixed = [], dict(pe)
+            for s in c['rxns']:
+                p = s['param']
+                if p['kind'] == 'raw':
+                    return None                                          # refused by design (NotImplementedError)
+                if p['kind'] == 'key':
+                    want_params += [pe_poly[p['uk']]['pk']] if p['uk'] in pe_poly else [] if p['uk'] in pe else [p['uk']]
+                elif p['kind'] in ('named', 'sym'):
+                    want_params.append(p['uk'])
+                elif p['kind'] == 'poly':
+                    want_params += ([p['uk']] if p.get('uk') else []) + [p['pk']]
+            want_params += cs
+            if len(set(uks)) != len(uks):
+                return None                                              # a repeated unique key: refused ("Duplicates in keys")
+            want_params = list(dict.fromkeys(want_params))
+        defined = set(names) | set(want_params)
+        P = {}
+
+        def look(n):
+            if n in fixed and n not in names:
+                return rat(fixed[n])
+            if n in defined:
+                return P.setdefault(n, sympy.Symbol('ph_' + n))
+            raise KeyError(n)
+
+        def poly_value(pp, a0):
+            tot = a0
+            for i, a in enumerate(pp['a'][1:], 1):
+                tot = tot + rat(a) * look(pp['pk']) ** i
+            return tot
+        coeffs, undefined = [], False
+        for s in c['rxns']:
+            p = s['param']
+            try:
+                if p['kind'] in ('raw', 'ma'):
+                    coeffs.append(rat(p['k']))
+                elif p['kind'] == 'named':
+                    coeffs.append(look(p['uk']) if (p['uk'] in fixed or p['uk'] in defined) else rat(p['k']))
+                elif p['kind'] == 'key' and p['uk'] in pe_poly:
+                    coeffs.append(poly_value(pe_poly[p['uk']], rat(pe_poly[p['uk']]['a'][0])))
+                elif p['kind'] in ('key', 'sym'):
+                    coeffs.append(look(p['uk']))
+                elif p['kind'] == 'poly':
+                    uk = p.get('uk')
+                    coeffs.append(poly_value(p, look(uk) if uk and (uk in fixed or uk in defined) else rat(p['a'][0])))
+                elif p['kind'] == 'strarg':
+                    coeffs.append(look(p['key']))
+            except KeyError:
+                undefined = True
+        if err is not None:
+            if not undefined and complete and sympy_nums and c['rxns']:
+                return '%s refused a well-formed system with parameter-keyed rate expressions: %s: %s' % (c['builder'], exc_name(err), str(err)[:100])
+            return None
+        if undefined:
+            return '%s accepted a rate expression that reads an undefined variable' % c['builder']
+        if c['builder'] == 'get':
+            if set(extra['param_keys']) != set(want_pk):
+                return 'param_keys %s, expected %s' % (extra['param_keys'], want_pk)
+            if list(extra['unique']) != reg:
+                return "extra['unique'] keys %s, registration order %s" % (list(extra['unique']), reg)
+            if len(set(uks)) == len(uks):
+                for k, v in extra['unique'].items():
+                    if (None if v is None else kg.to_frac(v)) != regval[k]:
+                        return "extra['unique'][%r] = %s, stored value %s" % (k, v, regval[k])
+            if list(odesys.param_names)[len(want_pk):] != want_params[len(want_pk):]:
+                return 'param_names %s do not end with the registered keys %s' % (list(odesys.param_names), reg)
+        if set(odesys.param_names) != set(want_params) or len(set(odesys.param_names)) != len(odesys.param_names):
+            return 'param_names %s, expected the set %s' % (list(odesys.param_names), want_params)
+        symof = dict(zip(odesys.param_names, odesys.params))
+        symof.update(zip(odesys.names, odesys.dep))
+
+        def real(e):
+            return sympy.sympify(e).subs({P[m]: symof[m] for m in list(P)})
+        return self._check_built(c, odesys, extra if c['builder'] == 'get' else None, lambda n: real(look(n)),
+                                 [real(k) for k in coeffs], '%s (parameter-keyed rate expressions)' % c['builder'])
+
+    def _oracle_usersyms(self, c, rsys):
+        """_create_odesys with user-supplied substance_symbols / parameter_symbols"""
+        import sympy
+        names = list(c['subst'])
+        try:
+            odesys, extra = run_builder(c, rsys)
+            err = None
+        except Exception as e:
+            odesys, extra, err = None, None, e
+        ss, ps = c.get('subst_symbols'), c.get('param_symbols')
+        if ss is not None and list(ss) != names:
+            return None if isinstance(err, ValueError) else \
+                '_create_odesys did not refuse (ValueError) substance_symbols with keys %s for substances %s: %s' % (ss, names, exc_name(err) if err else 'accepted')
+        if ps is None:
+            return self.oracle({k: v for k, v in c.items() if k != 'subst_symbols'}, rsys)
+        if not ps['ordered']:
+            return None if isinstance(err, ValueError) else \
+                '_create_odesys did not refuse (ValueError) a parameter_symbols that is no OrderedDict: %s' % (exc_name(err) if err else 'accepted')
+        keys = list(ps['keys'])
+        pe = dict((k, kg.frac(v)) for k, v in c['param_exprs'])
+        cs = (['feedratio'] + ['fc_' + x for x in names]) if c['cstr'] else []
+        uks = [srx['param']['uk'] for srx in c['rxns'] if 'uk' in srx['param']]
+        if not c['rxns'] or not participates(c) <= set(names) or ({'time', 't'} & (set(names) | set(keys) | set(uks))):
+            return None
+        if set(names) & (set(keys) | set(uks) | set(pe)) or set(pe) & set(cs) or \
+                any(srx['param']['kind'] == 'sym' and srx['param']['uk'] in pe for srx in c['rxns']):
+            return None                                   # one symbol for a substance and a parameter / an Expr object in arithmetic
+        needed = [srx['param']['uk'] for srx in c['rxns'] if srx['param']['kind'] in ('key', 'sym') and srx['param']['uk'] not in pe] + cs
+        complete = all(k in keys for k in needed)
+        must_accept = complete and (c['cstr'] or participates(c) == set(names)) and (c['num'] == 'Rational' or c['cstr'])
+        if err is not None:
+            if must_accept:
+                return '_create_odesys refused well-formed user symbols: %s: %s' % (exc_name(err), str(err)[:100])
+            return None
+        if not complete:
+            return '_create_odesys accepted parameter_symbols %s although %s is needed' % (keys, [k for k in needed if k not in keys])
+        if list(odesys.param_names) != keys:
+            return 'param_names %s are not the keys of the given parameter_symbols %s' % (list(odesys.param_names), keys)
+        symof = dict(zip(odesys.param_names, odesys.params))
+        symof.update(zip(odesys.names, odesys.dep))
+
+        def look(n):
+            if n in pe and n not in names:
+                return sympy.Rational(pe[n].numerator, pe[n].denominator)
+            return symof[n]
+        coeffs = []
+        for srx in c['rxns']:
+            p = srx['param']
+            if p['kind'] in ('raw', 'ma') or (p['kind'] == 'named' and p['uk'] not in pe and p['uk'] not in keys):
+                q = kg.frac(p['k'])
+                coeffs.append(sympy.Rational(q.numerator, q.denominator))
+            else:
+                coeffs.append(look(p['uk']))
+        return self._check_built(c, odesys, None, look, coeffs, '_create_odesys (user symbols)')
+
     def known_key(self, c, failure):
         """Finding `get_odesys:substance-named-like-unique-key`: substances, parameters, unique keys and substitutions share the
         one `variables` dict.  When a unique key equals a substance key and is not exposed as a parameter (include_params=True,
@@ -1185,6 +1605,21 @@ class C04(Property):
         symbol* under the unique key (the rate constant silently becomes a concentration; a value-less key is accepted) or the
         substitution overwrites the concentration.  Characterising predicate: get_odesys and the unique key of some reaction
         is a substance key (with include_params=False and no substitution of that key the build is refused, so nothing fails)."""
+        if c.get('kind') == 'pk' and c['builder'] == 'create' and c.get('pe_poly'):
+            # Finding `_create_odesys:shared-parameter-key-duplicates`: a string parameter's parameter_expressions entry appends its
+            # parameter keys unconditionally; a parameter key shared with another rate expression -> "Duplicates in keys".
+            pe_poly = dict((k, pp) for k, pp in c['pe_poly'])
+            occ = []
+            for s in c['rxns']:
+                p = s['param']
+                if p['kind'] == 'poly':
+                    occ.append(p['pk'])
+                elif p['kind'] == 'key' and p['uk'] in pe_poly:
+                    occ.append('str:' + pe_poly[p['uk']]['pk'])
+            strs = [o[4:] for o in occ if o.startswith('str:')]
+            plain = [o for o in occ if not o.startswith('str:')]
+            if any(strs.count(k) > 1 or k in plain for k in strs) and 'refused' in str(failure):
+                return '_create_odesys:shared-parameter-key-duplicates'
         if (c.get('op') == 'build' or c.get('kind') == 'fractional') and c['builder'] == 'get':
             if any(s['param'].get('uk') in c['subst'] for s in c['rxns']):
                 return 'get_odesys:substance-named-like-unique-key'
@@ -1193,6 +1628,9 @@ class C04(Property):
     def classify(self, c):
         if c.get('op') == 'history':
             return 'history:' + '+'.join(sorted({x['do'] for x in c['steps'] if x['do'] != 'build'})) + (':alias' if c.get('alias') else '')
+        if c.get('kind') == 'pk':
+            return 'pk:%s%s%s%s%s' % (c['builder'], (':inl' if c['include_params'] else ':free') * (c['builder'] == 'get'),
+                                      ':cstr' if c['cstr'] else '', ':consts' if c.get('consts') else '', ':pe' if c.get('pe_poly') else '')
         if c.get('kind') == 'fractional':
             return 'fractional:%s%s:%s%s%s' % (c['coef_type'], ':orders' if c.get('orders') else '', c['builder'],
                                                (':inl' if c['include_params'] else ':free') * (c['builder'] == 'get'), ':cstr' if c['cstr'] else '')
@@ -1203,6 +1641,9 @@ class C04(Property):
             (':cstr' if c['cstr'] else '') + (':subs' if c['subs'] or c['param_exprs'] else '')
         return '%s:%s:%s:nr%d%s' % (cfg, 'clean' if clean(c) else 'edge', kinds or '-', min(len(c['rxns']), 4),
                                     ':shared' if shared_inconsistent(c) else '') + (':alias' if c.get('alias') else '') + (
+            ':active' if c.get('active') else '') + (':consts' if c.get('consts') else '') + (
+            ':usersyms' if c.get('subst_symbols') is not None or c.get('param_symbols') is not None else '') + (
+            ':conv' if any(s['param'].get('conv') for s in c['rxns']) else '') + (
             ':same-object' if any('share' in s for s in c['rxns']) else '') + (':copy' if any('from_copy' in s for s in c['rxns']) else '')
 
     def nontrivial(self, c):
